@@ -18,7 +18,8 @@ import (
 )
 
 type c23Prover struct {
-	p *kit.Program
+	p   *kit.Program
+	cur ssa.Instruction // the instruction whose goals are being built (guards valid there)
 }
 
 // c23Goal is one proof obligation G >= 0 of an instruction.
@@ -88,6 +89,16 @@ func (pv *c23Prover) lenLin(x ssa.Value, depth int) kit.G7Linear {
 		if first != nil && same {
 			return *first
 		}
+	case *ssa.Extract:
+		if c, ok := t.Tuple.(*ssa.Call); ok {
+			if l, ok := pv.callLen(c, t.Index, depth); ok {
+				return l
+			}
+		}
+	case *ssa.Call:
+		if l, ok := pv.callLen(t, 0, depth); ok {
+			return l
+		}
 	case *ssa.Convert:
 		// []byte(s) / string(b): same length
 		if _, ok := t.X.Type().Underlying().(*types.Basic); ok {
@@ -98,6 +109,94 @@ func (pv *c23Prover) lenLin(x ssa.Value, depth int) kit.G7Linear {
 		}
 	}
 	return one(x)
+}
+
+// callLen summarises the length of result idx of a static repository callee: the common length
+// of that result over the callee's returns, with parameters replaced by the call's arguments.
+// If the callee also returns an error, only its nil-error returns count and the summary is used
+// only where the current instruction is guarded by that error being nil.
+func (pv *c23Prover) callLen(c *ssa.Call, idx, depth int) (kit.G7Linear, bool) {
+	cal := kit.CalleeOf(c)
+	fn := cal.Static
+	if fn == nil || fn.Blocks == nil || !kit.IsRepoPkg(cal.Pkg) || depth > 4 {
+		return kit.G7Linear{}, false
+	}
+	res := fn.Signature.Results()
+	hasErr := res.Len() > 0 && kit.IsErrorType(res.At(res.Len()-1).Type())
+	if hasErr {
+		ev := kit.ErrResultOf(c)
+		if ev == nil || pv.cur == nil {
+			return kit.G7Linear{}, false
+		}
+		okGuard := false
+		for _, g := range kit.NormGuards(kit.GuardsOf(pv.cur)) {
+			if x, trueMeansNil, ok := kit.IsErrNilCheck(g.Cond); ok && x == ev && trueMeansNil == g.Polarity {
+				okGuard = true
+			}
+		}
+		if !okGuard {
+			return kit.G7Linear{}, false
+		}
+	}
+	var out *kit.G7Linear
+	for _, ret := range kit.Returns(fn) {
+		if ret.Block() == fn.Recover || idx >= len(ret.Results) {
+			continue
+		}
+		if hasErr && !kit.ReturnsNilError(ret) {
+			continue
+		}
+		saved := pv.cur
+		pv.cur = ret
+		l := pv.lenLin(kit.ReturnResult(ret, idx), depth+1)
+		pv.cur = saved
+		sub := kit.G7Linear{Const: l.Const, Terms: map[ssa.Value]int64{}}
+		for sym, k := range l.Terms {
+			prm, isParam := sym.(*ssa.Parameter)
+			if !isParam || prm.Parent() != fn {
+				return kit.G7Linear{}, false
+			}
+			pi := -1
+			for i, q := range fn.Params {
+				if q == prm {
+					pi = i
+				}
+			}
+			if pi < 0 || pi >= len(c.Call.Args) {
+				return kit.G7Linear{}, false
+			}
+			var al kit.G7Linear
+			switch prm.Type().Underlying().(type) {
+			case *types.Slice, *types.Array, *types.Pointer:
+				al = pv.lenLin(c.Call.Args[pi], depth+1)
+			default:
+				if b, ok := prm.Type().Underlying().(*types.Basic); ok && b.Info()&types.IsString != 0 {
+					al = pv.lenLin(c.Call.Args[pi], depth+1)
+				} else {
+					al = pv.lin(c.Call.Args[pi], depth+1)
+				}
+			}
+			sub.Const += k * al.Const
+			for s2, k2 := range al.Terms {
+				sub.Terms[s2] += k * k2
+			}
+		}
+		for s2, k2 := range sub.Terms {
+			if k2 == 0 {
+				delete(sub.Terms, s2)
+			}
+		}
+		if out == nil {
+			o := sub
+			out = &o
+		} else if !c23LinEq(*out, sub) {
+			return kit.G7Linear{}, false
+		}
+	}
+	if out == nil {
+		return kit.G7Linear{}, false
+	}
+	return *out, true
 }
 
 func c23ArrayLen(t types.Type) (int64, bool) {
@@ -434,6 +533,7 @@ func (pv *c23Prover) check(fn *ssa.Function, report func(key, pos string, ok boo
 	n := 0
 	ord := map[string]int{}
 	kit.Instrs(fn, func(in ssa.Instruction) {
+		pv.cur = in
 		gs := pv.goals(in)
 		if len(gs) == 0 {
 			return
